@@ -95,62 +95,120 @@ def detect(facts, label):
                 missing.remove(m)
                 progress = True
 
-    # ---- inherent impl blocks may be written in any module: `m::<impl path::T<'_>>::f` and `path::T::<'a>::f` are the same method
-    def inherent_key(n):
-        if n.startswith("<"):
-            return None
-        mo = re.match(r"^.*::<impl (.+)>::([A-Za-z0-9_]+)$", n)
-        if mo:
-            if " for " in mo.group(1):
-                return None
-            return (re.sub(r"<[^<>]*>$", "", mo.group(1)), mo.group(2))
-        o, last = split_last(n)
-        return (re.sub(r"::<[^<>]*>$", "", o), last) if o else None
+    # ---- crate-local traits that were moved to another module or renamed: same last segment, else the same set of method names
+    crate_p = crate + "::"
 
-    by_key = {}
+    def trait_of(n):
+        mo = re.match(r"^<.+ as (.+)>::([A-Za-z0-9_]+)$", n) or re.match(r"^.*::<impl (.+?) for .+>::([A-Za-z0-9_]+)$", n)
+        if mo and mo.group(1).startswith(crate_p):
+            return re.sub(r"<[^<>]*>$", "", mo.group(1)), mo.group(2)
+        return None
+    base_tr, prog_tr = {}, {}
+    for n in base_f:
+        tm = trait_of(n)
+        if tm:
+            base_tr.setdefault(tm[0], set()).add(tm[1])
     for n in prog_fns:
-        if n not in base_f and prog_fns[n].get("kind") == "AssocFn":
-            k = inherent_key(_apply(n, ren))
-            if k:
-                by_key.setdefault(k, []).append(n)
-    for m in base_f:
-        if m in prog_fns or base_f[m]["kind"] != "AssocFn":
-            continue
-        k = inherent_key(m)
-        if k and len(by_key.get(k, [])) == 1:
-            n = by_key[k][0]
-            ren[n] = m
-            prog_fns[m] = prog_fns.pop(n)
+        tm = trait_of(_apply(n, ren))
+        if tm:
+            prog_tr.setdefault(tm[0], set()).add(tm[1])
+    new_tr = [t_ for t_ in prog_tr if t_ not in base_tr]
+    for mt in [t_ for t_ in base_tr if t_ not in prog_tr]:
+        c1 = [t_ for t_ in new_tr if split_last(t_)[1] == split_last(mt)[1]]
+        c2 = [t_ for t_ in new_tr if prog_tr[t_] == base_tr[mt]]
+        pick = c1 if len(c1) == 1 else c2 if len(c2) == 1 else []
+        if pick:
+            ren[pick[0]] = mt
+            new_tr.remove(pick[0])
 
-    # ---- functions (signatures compared after the type renames)
-    missing_f = [n for n in base_f if n not in prog_fns]
-    new_f = [n for n in prog_fns if _apply(n, ren) not in base_f]
-    used = set()
+    # ---- impl blocks may be written in any module: `m::<impl path::T<'_>>::f` is the method `path::T::<'a>::f`, and
+    #      `m::<impl Trait for T>::f` is `<T as Trait>::f`
+    owners = {}
+    for n in base_f:
+        o = split_last(n)[0]
+        if o and not o.startswith("<") and base_f[n]["kind"] == "AssocFn" and "<impl " not in o:
+            owners.setdefault(re.sub(r"::<[^<>]*>$", "", o), o)
+
+    def canonical(n):
+        """the spelling a method would have if its impl block sat next to the type"""
+        if n.startswith("<"):
+            return n
+        mo = re.match(r"^.*::<impl (.+?) for (.+)>::([A-Za-z0-9_]+)$", n)
+        if mo:
+            return "<%s as %s>::%s" % (mo.group(2), mo.group(1), mo.group(3))
+        mo = re.match(r"^.*::<impl (.+)>::([A-Za-z0-9_]+)$", n)
+        if mo and " for " not in mo.group(1):
+            ty = re.sub(r"<[^<>]*>$", "", mo.group(1))
+            if ty in owners:
+                return "%s::%s" % (owners[ty], mo.group(2))
+        return n
+    for n in list(prog_fns):
+        if n in base_f:
+            continue
+        c = canonical(_apply(n, ren))
+        if c != _apply(n, ren) and c not in prog_fns:
+            ren[n] = c
+            if _apply(n, ren) != c:
+                ren[_apply(n, ren)] = c
+            prog_fns[c] = prog_fns.pop(n)
+    # a baseline method whose impl block was folded back next to the type (`m::<impl T>::f` in the baseline, `T::f` now)
+    for m in base_f:
+        if m in prog_fns:
+            continue
+        c = canonical(m)
+        if c != m and c in prog_fns and c not in base_f:
+            ren[c] = m
+            prog_fns[m] = prog_fns.pop(c)
+
+    # ---- functions renamed and / or moved: same kind and signature (after the renames above); among several candidates the one whose
+    #      callees resemble the reviewed function's most, by a clear margin
+    def sig_of(b):
+        return ([_apply(b["locals"][i]["ty"], ren) for i in range(1, b["arg_count"] + 1)], _apply(b["locals"][0]["ty"], ren), b.get("kind"))
+
+    def calls_of(b):
+        out = set()
+        for blk in b["blocks"]:
+            t = blk["term"]
+            if t.get("k") == "call":
+                import core as C_
+                nm = C_.callee_name(t)
+                if nm:
+                    out.add(_apply(nm, ren))
+        return out
+    missing_f = [m for m in base_f if m not in prog_fns]
+    new_f = [n for n in prog_fns if n not in base_f]
+    pairs = []
     for m in missing_f:
-        owner_m, _last = split_last(m)
+        owner_m, last_m = split_last(m)
         want = (base_f[m]["params"], base_f[m]["ret"], base_f[m]["kind"])
-        cands = []
         for n in new_f:
-            if n in used:
-                continue
             b = prog_fns[n]
-            if split_last(_apply(n, ren))[0] != owner_m:
+            if sig_of(b) != want:
                 continue
-            got = ([_apply(b["locals"][i]["ty"], ren) for i in range(1, b["arg_count"] + 1)], _apply(b["locals"][0]["ty"], ren), b.get("kind"))
-            if got == want:
-                cands.append(n)
-        # several missing functions of one owner with the same signature cannot be told apart
-        same = [x for x in missing_f if split_last(x)[0] == owner_m and (base_f[x]["params"], base_f[x]["ret"], base_f[x]["kind"]) == want]
-        if len(cands) == 1 and len(same) == 1:
-            n = cands[0]
-            used.add(n)
-            ren[_apply(n, ren)] = m
-            if _apply(n, ren) != n:
-                ren[n] = m
+            owner_n, last_n = split_last(_apply(n, ren))
+            if want[2] != "Fn" and owner_n != owner_m:
+                continue        # a method keeps its type (wherever the impl block is written); a free function may move
+            cb, cn = set(base_f[m].get("calls", [])), calls_of(b)
+            score = (len(cb & cn) / len(cb | cn)) if (cb | cn) else 1.0
+            score += (0.2 if owner_n == owner_m else 0.0) + (0.1 if last_n == last_m else 0.0)
+            pairs.append((score, m, n))
+    pairs.sort(key=lambda x: (-x[0], x[1], x[2]))
+    taken_m, taken_n = set(), set()
+    for score, m, n in pairs:
+        if m in taken_m or n in taken_n:
+            continue
+        rivals = [s_ for (s_, m2, n2) in pairs if (m2 == m) != (n2 == n) and m2 not in taken_m and n2 not in taken_n]
+        if rivals and max(rivals) > score - 0.15:
+            continue        # not clearly the best for both sides: leave it (the role then fails closed)
+        taken_m.add(m)
+        taken_n.add(n)
+        ren[_apply(n, ren)] = m
+        if _apply(n, ren) != n:
+            ren[n] = m
+        mo = re.match(r"^<.* as (.+)>$", split_last(m)[0])
+        if mo:
             # the trait-path spelling of a trait-impl method: `<X as Trait>::new` is also mentioned as `Trait::new`
-            mo = re.match(r"^<.* as (.+)>$", owner_m)
-            if mo:
-                ren["%s::%s" % (mo.group(1), split_last(n)[1])] = "%s::%s" % (mo.group(1), split_last(m)[1])
+            ren["%s::%s" % (mo.group(1), split_last(n)[1])] = "%s::%s" % (mo.group(1), split_last(m)[1])
 
     # ---- fields, by position
     fld = {}
